@@ -7,7 +7,6 @@ CONSTRAINT ExportC
 INVARIANT TypeOK
 INVARIANT HolderOnly
 INVARIANT Contiguous
-INVARIANT BlockShape
 INVARIANT OnceInOrder
 INVARIANT Released
 INVARIANT FaultsSurface
